@@ -66,6 +66,9 @@ def queries(ctx, extra):
                              + ["-DCH%d=%d" % (i, c) for i, c in enumerate(ch4)],
                         unwind=6, unwindset=["btreeCheck0:2", "cnt:3", "paired:3"], timeout=600, group="btree",
                         bound="%s at child %d of an arbitrary valid tree: root %d keys, children %s keys, symbolic keys" % (nm, idx, r, ch)))
+    qs.append(Query(name="dnf_eval", harness="c20_dnf.c", entry="h_dnf_eval", srcs=["dnf.c"], defs=["-DV_STO_FIXED=96", "-DV_STO_NOFREE"],
+                    unwind=10, timeout=1800, mem_gb=14, group="dnf",
+                    bound="all formulas ((l1 o1 l2) o2 l3) with optional negation at both levels over literals of 3 atoms, every valuation"))
     # hash table: one step from every chain shape (bucket 0: 0..3 entries, bucket 1: 0..1), symbolic hash values;
     # plus the growth path from a full 1-bucket table (5 entries -> 6th insert enlarges to 2 buckets)
     QUICK = {(7, 0, 0), (7, 1, 0), (7, 0, 1), (7, 2, 0), (1, 4, 0)}      # the others take 130-860 s each
